@@ -45,6 +45,23 @@ pub fn rebase_address_space_limit() {
     }
 }
 
+/// lifts the soft address-space limit (the hard one was never set): what the harness allocates between two decode
+/// calls (a directed enumeration of thousands of encodings) is not judged
+pub fn lift_address_space_limit() {
+    let lim = libc::rlimit { rlim_cur: libc::RLIM_INFINITY, rlim_max: libc::RLIM_INFINITY };
+    unsafe {
+        libc::setrlimit(libc::RLIMIT_AS, &lim);
+    }
+}
+
+/// runs one decode call under `current virtual size + budget`
+pub fn with_decode_budget<T>(f: impl FnOnce() -> T) -> T {
+    rebase_address_space_limit();
+    let r = f();
+    lift_address_space_limit();
+    r
+}
+
 #[derive(Debug, Clone)]
 pub struct Death {
     pub label: String,
